@@ -32,6 +32,11 @@ func (tc *Config) init() {
 func (prog *Progress) init() {
 	if prog.Cfg == nil {
 		prog.Cfg = &Config{}
+	} else if prog.Cfg.Ctx == nil || prog.Cfg.LinkTargetNodePrototypeChooser == nil {
+		// Defaults are needed: fill them into a copy. The caller's Config may be
+		// shared between goroutines, and a traversal must not write to it.
+		cfg := *prog.Cfg
+		prog.Cfg = &cfg
 	}
 	prog.Cfg.init()
 	if prog.Cfg.LinkVisitOnlyOnce {
